@@ -16,7 +16,9 @@ Theorem C14_model_tables_shortest :
     d_algo (c_desc c) = ID -> gen_routing_info sp c = Ok ri -> In t (c_nis c) -> id_num (cn_id t) = Ok id ->
     (forall s p, sp (c_graph c) s (cn_name t) = Some p -> path_to_t (g_edge c) (cn_name t) p s) ->
     (forall s p q, sp (c_graph c) s (cn_name t) = Some p -> path_to_t (g_edge c) (cn_name t) q s -> (length p <= length q)%nat) ->
-    (forall s q, path_to_t (g_edge c) (cn_name t) q s -> sp (c_graph c) s (cn_name t) <> None) ->
+    forall B : nat, (1 <= B)%nat ->
+    (forall s p, sp (c_graph c) s (cn_name t) = Some p -> (length p <= B)%nat) ->
+    (forall s q, path_to_t (g_edge c) (cn_name t) q s -> (length q <= B)%nat -> sp (c_graph c) s (cn_name t) <> None) ->
     NoDup (map cr_name (c_rts c)) ->
     (forall u p, is_router c u -> sp (c_graph c) u (cn_name t) = Some p -> forall x, In x (removelast p) -> is_router c x) ->
     forall k u p, (is_router c u \/ u = cn_name t) -> sp (c_graph c) u (cn_name t) = Some p -> length p = S k ->
